@@ -95,7 +95,19 @@ def run(ctx):
             bodies = [rand_body(rng) for _ in range(nlit)]
             name = 's%d' % j
             sep = rng.choice([' ', '  ', ' /* c */ ', '\\\n'])
-            lines.append('const char %s[] = %s; // "x"' % (name, sep.join('"%s"' % b for b, _ in bodies)))
+            decl = 'const char %s[] = %s; // "x"' % (name, sep.join('"%s"' % b for b, _ in bodies))
+            # directive handling around literals: skipped groups holding literals of their own must not
+            # disturb the literals of the selected text
+            w = rng.random()
+            skipped = 'const char sk%d[] = "%s";' % (j, rand_body(rng, 4)[0])
+            if w < 0.15:
+                lines += ['#ifdef UNDEFINED_Q', skipped, '#endif', decl]
+            elif w < 0.30:
+                lines += ['#if 1', decl, '#else', skipped, '#endif']
+            elif w < 0.40:
+                lines += ['#ifndef FOO', skipped, '#else', decl, '#endif']
+            else:
+                lines.append(decl)
             exp[name] = sum((o for _, o in bodies), []) + [0]
             pieces[name] = [b for b, _ in bodies]
         # pointer table
